@@ -179,10 +179,37 @@ class Rec:
     def ext(self, files):
         rec = self
 
+        def mk(vals, dtype):
+            def getitem(key):
+                if isinstance(key, Obj) and "__array__" in key.attrs:
+                    key = key.attrs["__array__"]
+                if isinstance(key, (list, tuple)):
+                    if key and all(isinstance(k, bool) for k in key):
+                        return mk([v for v, k in zip(vals, key) if k], dtype)
+                    return mk([vals[k] for k in key], dtype)        # fancy indexing: rows in the order of the index array
+                if isinstance(key, slice):
+                    return mk(vals[key], dtype)
+                return vals[key]
+            return Obj(None, __array__=vals, dtype=dtype, __getitem__=getitem, __len__=lambda: len(vals),
+                       __iter__=lambda: iter(vals), tolist=lambda: list(vals), shape=(len(vals),), size=len(vals))
+
+        def plain(a):
+            return list(a.attrs["__array__"]) if isinstance(a, Obj) and "__array__" in a.attrs else list(a)
+
         def asarray(values, dtype=None):
-            vals = list(values)
+            vals = plain(values)
             rec.arrays.append((vals, dtype))
-            return Obj(None, __array__=vals, dtype=dtype)
+            return mk(vals, dtype)
+
+        def argsort(a, axis=-1, kind=None, order=None, stable=None):
+            vals = plain(a)
+            return mk(sorted(range(len(vals)), key=lambda i: vals[i]), "int64")       # Python's sort is stable, as every numpy kind is on ties here
+
+        def np_sort(a, axis=-1, kind=None, order=None, stable=None):
+            return mk(sorted(plain(a)), None)
+
+        def arange(n):
+            return mk(list(range(n)), "int64")
 
         def dataset(data_vars=None, **k):
             o = Obj(None, data_vars=data_vars)
@@ -191,7 +218,8 @@ class Rec:
         import collections
         e = dict(source_externals())
         e.update({
-            "np": Obj(None, asarray=asarray, array=asarray), "numpy": Obj(None, asarray=asarray, array=asarray),
+            "np": Obj(None, asarray=asarray, array=asarray, argsort=argsort, sort=np_sort, arange=arange),
+            "numpy": Obj(None, asarray=asarray, array=asarray, argsort=argsort, sort=np_sort, arange=arange),
             "xr": Obj(None, Dataset=dataset), "xarray": Obj(None, Dataset=dataset),
             "open": lambda path, mode="r", *a, **k: _file_obj(path),
             "gzip.open": lambda path, mode="rb", *a, **k: _file_obj(path, gz=True),
@@ -284,10 +312,23 @@ def build(h):
                 .replace("parameters.Parameter", "definitions.parameters.Parameter").replace("parameter_types.", "definitions.parameter_types."), XR)
 
 
+# the 14-bit sequence count of each APID's packets in stream order: it wraps (16383 -> 0) inside the stream and a later file
+# restarts lower - the count is no sort key for rows
+_SEQ = {}
+
+
+def _raw_data(apid):
+    n = _SEQ.get(apid, 0)
+    _SEQ[apid] = n + 1
+    seq = (16382 + n) % 16384 if n < 3 else n - 3
+    return Obj("RawPacketData", apid=apid, version_number=0, type=0, secondary_header_flag=0, sequence_flags=3,
+               sequence_count=seq, data_length=40)
+
+
 def packets_for(apid, idx_list):
     out = []
     for i in idx_list:
-        p = DictObj(cls="CCSDSPacket", raw_data=Obj("RawPacketData", apid=apid))
+        p = DictObj(cls="CCSDSPacket", raw_data=_raw_data(apid))
         for n, (_, vals) in KINDS.items():
             kind, v, raw = vals[i % len(vals)]
             p[n] = V(kind, v, raw)
@@ -307,7 +348,9 @@ def dataset_rule(ctx: Ctx):
         except (Unsupported, Raised) as e:
             ctx.unknown("R18.2", f"{fi.key}::definition", f"cannot build the model definition: {e}")
             return
-        streams = {"fileA": packets_for(3, [0, 1]) + packets_for(9, [1]) + packets_for(3, [1]), "fileB": packets_for(9, [0]) + packets_for(3, [0])}
+        _SEQ.clear()
+        fb = packets_for(2047, [0]) + packets_for(3, [0]) + packets_for(0, [1])
+        streams = {"fileA": packets_for(3, [0, 1]) + packets_for(2047, [1]) + packets_for(3, [1]), "fileB": fb}
 
         seen_kwargs = []
 
@@ -341,9 +384,10 @@ def dataset_rule(ctx: Ctx):
                     f"create_dataset calls packet_generator {len(seen_kwargs)} time(s) for 2 files with {seen_kwargs}: options the caller did "
                     f"not give change which packets reach the dataset"), where=where(fi, fi.node))
         # accumulation: got = {apid: dataset}; dataset.data_vars = {name: (dims, array)}
-        want_rows = {3: [("fileB", 0), ("fileA", 0), ("fileA", 1), ("fileA", 1)], 9: [("fileB", 0), ("fileA", 1)]}
-        ok_acc = isinstance(got, dict) and sorted(got) == [3, 9]
-        why_acc = f"datasets for APIDs {sorted(got) if isinstance(got, dict) else got!r}, expected [3, 9]"
+        want_rows = {3: [("fileB", 0), ("fileA", 0), ("fileA", 1), ("fileA", 1)], 2047: [("fileB", 0), ("fileA", 1)], 0: [("fileB", 1)]}
+        ok_acc = isinstance(got, dict) and sorted(got) == [0, 3, 2047]
+        why_acc = (f"datasets for APIDs {sorted(got) if isinstance(got, dict) else got!r}, expected [0, 3, 2047] (every APID the generator "
+                   f"yields packets for, the reserved idle APID 2047 and APID 0 included)")
         cells = {}
         if ok_acc:
             for apid, ds in got.items():
